@@ -158,6 +158,29 @@ func genC02(r *kit.RNG) *C01Scenario {
 						}
 					}
 				}
+			case "nx-below-dname":
+				t.Step = "answer"
+				// the zone must have its DNAME, and questions must go below it
+				for zi := range sc.World.Zones {
+					z := &sc.World.Zones[zi]
+					if dns.CanonicalName(z.Name) != dns.CanonicalName(t.Zone) || !z.Signed {
+						continue
+					}
+					has := false
+					for _, rec := range z.Records {
+						if strings.HasPrefix(rec, "dn."+z.Name+" ") {
+							has = true
+						}
+					}
+					if !has {
+						z.Records = append(z.Records, fmt.Sprintf("dn.%s 300 IN DNAME w.%s", z.Name, z.Name))
+					}
+					for j := range sc.Ops {
+						if j >= t.FromOp && r.Chance(0.5) {
+							sc.Ops[j].Name, sc.Ops[j].Qtype = kit.Pick(r, []string{"x.dn.", "a.b.dn.", "www.dn."})+z.Name, kit.Pick(r, []uint16{dns.TypeA, dns.TypeA, dns.TypeTXT})
+						}
+					}
+				}
 			case "nx-for-existing", "nx-retired-salt", "nodata-for-existing", "forge-unsigned", "wildcard-replay", "wildcard-replay-other-nsec", "wildcard-replay-forged-nsec":
 				t.Step = "answer"
 			case "nx-below-delegation":
